@@ -50,7 +50,9 @@ def one(ctx, res, binary, name, dbname, rule, theme, maxhist, bshift, workers=8,
     sd, cancun = RULES[rule]
     ops, values, vals, addrs, slots = THEMES[simtheme if sim else theme]
     db = {a: dict(r, stor={k: v for k, v in r["stor"].items() if k in slots}) for a, r in db.items() if a in addrs}
-    consts = dict(Addr=vf.tla_set(addrs), Slot=vf.tla_set(slots), Val=vf.tla_set(vals), Cap=4, NBig=100, Db=tla_db(db),
+    consts = dict(Addr=vf.tla_set(addrs), Slot=vf.tla_set(slots), Val=vf.tla_set(vals),
+                  # balances are embedded as v << bshift: with 254, Cap = 4 is 2^256 (overflow); without a shift nothing overflows
+                  Cap=4 if bshift == 254 else 1000, NBig=100, Db=tla_db(db),
                   PreWarm=vf.tla_set([a for a in addrs if a == 3]), SD="TRUE" if sd else "FALSE", CANCUN="TRUE" if cancun else "FALSE",
                   Codes="{2}", Values=vf.tla_set(values), MaxDepth=maxdepth, MaxHist=maxhist, OverwriteCode="FALSE",
                   Sim="TRUE" if sim else "FALSE",
